@@ -37,6 +37,8 @@ type wireRun struct {
 	lis  *sim.Listener
 	v    Variant
 	dest int // destination distance (0: unreachable)
+	// shared: this SACK run connects to the listener of another run (same target address and port)
+	shared *wireRun
 }
 
 var routerForms = []string{"te28", "teFull", "te4884", "teOpt", "teRewr"}
@@ -100,6 +102,11 @@ func genWireRun(rng *rand.Rand, o *wireOpts, fi int, actor string) *wireRun {
 	c := &wr.call
 	c.Entry = v.Entry
 	c.Target = v.target(fi)
+	if v.V6 && chance(rng, 0.12) {
+		// genuine IPv6 addresses whose bytes look like something else at a glance: ffff in the sixth
+		// group (not IPv4-mapped: the first 80 bits are not zero), an embedded IPv4 tail, all-ones groups
+		c.Target = pick(rng, "2001:db8:abcd:12:0:ffff:a00:fffe", "2001:db8::ffff:c633:644d", "2001:db8:77:0:ffff:ffff:ffff:ffff", "64:ff9b::c633:644d", "2001:db8:0:1::ffff:0:1")
+	}
 	c.Paris, c.Loosen = v.Paris, v.Loosen
 	if v.Entry != "icmp" {
 		c.Port = pick(rng, 33434, 443, 80, 1, 65535, 8080)
@@ -191,6 +198,9 @@ func genFlow(rng *rand.Rand, o *wireOpts, v Variant, c *sim.Call, fi int, actor 
 			hp.From = c.Target
 		} else {
 			hp.From = routerAddr(v.V6, fi, t)
+			if v.V6 && chance(rng, 0.06) {
+				hp.From = fmt.Sprintf("2001:db8:%x:%x:0:ffff:a00:%x", 0x100+fi, t, 1+t)
+			}
 		}
 		if chance(rng, o.lossProb) && !serial {
 			f.ProbeLoss = append(f.ProbeLoss, t)
@@ -225,6 +235,15 @@ func genFlow(rng *rand.Rand, o *wireOpts, v Variant, c *sim.Call, fi int, actor 
 				form = destForms(v, rng, o.catalogue)
 				if o.destForms && (v.Entry == "udp" || v.Entry == "sack" || v.Entry == "icmp" || v.Entry == "tcp") && chance(rng, 0.15) {
 					form = "te28" // the target itself reports time-exceeded
+				}
+				if o.destForms && v.Entry != "udp" && chance(rng, 0.12) {
+					// the target (a host firewall that REJECTs) answers with destination unreachable quoting
+					// the probe: not a proof of arrival for ICMP echo, TCP SYN or SACK probing
+					if v.V6 {
+						form = pick(rng, "unreach:4", "unreach:1")
+					} else {
+						form = pick(rng, "unreach:3", "unreach:13", "unreach:10", "unreach:1")
+					}
 				}
 			}
 			r := sim.Reply{Form: form, DelayUs: delay, K: rng.IntN(4)}
@@ -382,6 +401,8 @@ func scenarioFor(prop string, rng *rand.Rand, runs []*wireRun) *sim.Scenario {
 		if r.lis != nil {
 			sc.Listeners = append(sc.Listeners, *r.lis)
 			r.call.Listener = len(sc.Listeners)
+		} else if r.shared != nil {
+			r.call.Listener = r.shared.call.Listener
 		}
 		sc.Calls = append(sc.Calls, r.call)
 		sc.Flows = append(sc.Flows, r.flow)
